@@ -71,7 +71,7 @@ func genLossy(p *simkit.Plan, r *simkit.Rand, tier string) {
 		p.Faults = append(p.Faults, simkit.Fault{Kind: simkit.Pick(r, []string{"tx_corrupt", "tx_drop", "tx_dup", "tx_truncate", "tx_early_done", "tx_swap", "tx_blockshift"}), Key: "link", Nth: r.Range(1, 12), Arg: int64(r.Range(0, 1000))})
 	}
 	c["edit_source_during_supply"] = int64(r.Intn(4)) // 1 = yes
-	c["delete_staged"] = int64(r.Intn(5))            // 1 = yes
+	c["delete_staged"] = int64(r.Intn(5))             // 1 = yes
 	c["edit_at"] = int64(r.Range(1, 30))
 	c["internal_staging"] = int64(r.Intn(2))
 	// A finite staging size limit placed just below, at, or above the size of
@@ -285,4 +285,3 @@ func execLossy(t *testing.T, plan *simkit.Plan) *simkit.Result {
 }
 
 var _ = errors.New
-
